@@ -209,7 +209,7 @@ func VerifC03Gsfa() {
 			verifAssert(n == counts[qi], "C03.gsfa: number of listed transactions differs from the address's history")
 		}
 	}
-	switch verifChoice("api", 3) {
+	switch verifChoice("api", 4) {
 	case 0: // what handleGetSignaturesForAddress calls
 		m, err := multi.GetBeforeUntil(ctx, pk, 100, nil, nil, fetcher)
 		verifAssert(err == nil, "C03.gsfa: GetBeforeUntil failed (an epoch without the address must be skipped)")
@@ -221,6 +221,10 @@ func VerifC03Gsfa() {
 		} else {
 			verifAssert(m == nil, "C03.gsfa: Get returned both an error and transactions")
 		}
+	case 3: // what the gRPC StreamTransactions account filter calls (whole slot range)
+		m, err := multi.GetBeforeUntilSlot(ctx, pk, 100, 20*432000, 0, fetcher)
+		verifAssert(err == nil, "C03.gsfa: GetBeforeUntilSlot failed (an epoch without the address must be skipped)")
+		check(m, true)
 	case 2: // single-epoch reader
 		locs, err := readers[0].GetBeforeUntil(ctx, pk, 100, nil, nil, func(loc linkedlog.OffsetAndSizeAndSlot) (solana.Signature, error) {
 			return solana.Signature{}, nil
